@@ -64,6 +64,19 @@ pub fn libm_flavour() -> &'static str {
     }
 }
 
+/// special and invalid operand bit patterns
+pub fn special_operands() -> Vec<[f64; 2]> {
+    let his = [f64::INFINITY, f64::NEG_INFINITY, f64::NAN, 0.0, -0.0, 1.0, -1.0, 2.5, f64::MAX, f64::MIN, f64::MIN_POSITIVE, 5e-324, -5e-324, 1e300, -1e-300];
+    let los = [f64::INFINITY, f64::NEG_INFINITY, f64::NAN, 0.0, -0.0, 1.0, -0.5, 5e-324, -5e-324, 2f64.powi(-53), -2f64.powi(-54), 1e284];
+    let mut v = vec![];
+    for h in his {
+        for l in los {
+            v.push([h, l]);
+        }
+    }
+    v
+}
+
 pub fn run(r: &mut Runner) {
     let quick = r.quick();
     let rec = r.recorder();
@@ -91,6 +104,10 @@ pub fn run(r: &mut Runner) {
     xs.extend(crate::fx::linear_ladder(1, 1024, 128.0, true));
     xs.push([0.0, 0.0]);
     xs.push([-0.0, 0.0]);
+    // special and invalid bit patterns (the statement is about identical operand bit patterns, whatever they are):
+    // every combination of special high and low words, incl. the (inf, inf) / (NaN, NaN) constants
+    let special = special_operands();
+    xs.extend(special.iter().cloned());
     dedup(&mut xs);
     let n = xs.len();
     r.add_sample(json!({"operand": show_dd(xs[n / 2]), "unary_ops": un.iter().map(|o| o.name()).collect::<Vec<_>>()}));
@@ -158,6 +175,22 @@ pub fn run(r: &mut Runner) {
                             k += 1;
                         }
                     }
+                }
+            }
+        });
+    }
+    // ---- special / invalid operands: all ordered pairs, every binary entry point
+    {
+        let ns = special.len();
+        let bin3 = bin.clone();
+        r.notes.push(format!("special operands: {} patterns (hi, lo each from +-inf, NaN, +-0, +-1, MAX, MIN_POSITIVE, 5e-324, ...): every unary entry point, and all {} ordered pairs x {} binary entry points", ns, ns * ns, bin.len()));
+        r.par("special / invalid operands: all ordered pairs", ns, (ns * ns) as u64, |i, l| {
+            for j in 0..ns {
+                for (k, &op) in bin3.iter().enumerate() {
+                    rec.record(l, (7u64 << 52) + ((i * ns + j) * 64 + k) as u64, judge(op, special[i], special[j]));
+                }
+                for kind in 0..15u8 {
+                    rec.record(l, (7u64 << 52) + (1u64 << 40) + ((i * ns + j) * 16 + kind as usize) as u64, judge_ext(kind, special[i], special[j]));
                 }
             }
         });
